@@ -9,10 +9,10 @@
 package main
 
 import (
-	"time"
 	"flag"
 	"fmt"
 	"os"
+	"time"
 )
 
 type runner func(res *Result, rng *RNG, tier string, outDir string)
